@@ -24,6 +24,31 @@ ASSUMPTIONS = ['a solver may refresh the ghost layer / cached boundary term of a
                'digest of such inputs is taken over the visible state (interior values, boundary coefficient arrays, periodic flags)']
 
 
+def perturb_inputs(args):
+    """deterministic in-place edits of everything editable among the arguments (not the mesh); returns the number of edits"""
+    from pyfvtool.boundary import BoundaryConditionsBase
+    n = 0
+    for x in args:
+        if isinstance(x, pf.FaceVariable):
+            for nm in ('_xvalue', '_yvalue', '_zvalue'):
+                a = getattr(x, nm)
+                if isinstance(a, np.ndarray) and a.size and a.dtype.kind == 'f':
+                    a *= 1.5
+                    a += 0.25
+                    n += 1
+        elif isinstance(x, pf.CellVariable):
+            x.value = np.asarray(x.value) * 0.5 + 1.0
+            n += 1
+        elif isinstance(x, BoundaryConditionsBase):
+            x.left.c = np.asarray(x.left.c) + 0.5
+            n += 1
+        elif isinstance(x, np.ndarray) and x.size and x.dtype.kind == 'f' and x.flags.writeable:
+            x *= 0.5
+            x += 0.125
+            n += 1
+    return n
+
+
 def bc_objects(obj, path='o'):
     """(path, BoundaryConditions object) pairs reachable from a variable / list"""
     from pyfvtool.boundary import BoundaryConditionsBase
@@ -203,6 +228,18 @@ def run_case(case):
                 ret3 = fn(args)
                 if canon(ret) != canon(ret3) and name not in ('solveExplicitPDE',):
                     bad.append(('nondeterministic', '%s on %s: repeated call on the same objects returned different bits' % (name, cls)))
+            # history independence: the inputs are edited IN PLACE (same objects, same array objects: D.xvalue[...] = ..., phi.value = ...,
+            # BC.left.c = ...) and the function is called again; a third, never used set of equal inputs edited the same way is the
+            # reference - "repeated calls with equal inputs return bit-identical results" whatever was built before from these objects
+            if 'SOLUTION' not in allowed:
+                rng.bit_generator.state = state
+                fn3, args3, _a3 = build_call(name, rng, m, g, spec, dirty)
+                n_ed = perturb_inputs(args) + 0 * perturb_inputs(args3)
+                if n_ed:
+                    ret_a, ret_c = fn(args), fn3(args3)
+                    cov['history_independence_calls'] = 1
+                    if canon(ret_a) != canon(ret_c):
+                        bad.append(('stale-after-inplace-edit', '%s on %s: after an in-place edit of its inputs the function does not return what it returns for fresh, equal inputs (it remembers the previous build)' % (name, cls)))
             # aliasing of grid storage
             hits = aliases(ret, [m])
             if hits:
@@ -267,6 +304,45 @@ def run_case(case):
                     bad.append(('reuse-differs', 'reusing term objects over a time loop gives different results than rebuilding them (step %d)' % (step + 1)))
                     break
             cov['reuse_loops'] = 1
+        elif kind == 'solver-leak':
+            # an external solver is used by the call that received it and by no other call (process-wide state): default solve,
+            # solve with a marked external solver, default solves again - the marker must not be invoked and the bits must not change
+            from scipy.sparse.linalg import spsolve
+            BC = gen.make_bc(pf, m, g, spec)
+            vals = rng.normal(0, 1, g.dims)
+            D, _ = gen.face_arrays(rng, g, 'random', positive=True)
+            Df = gen.facevar(pf, m, D)
+            calls = {'n': 0}
+
+            def marked(M_, b_):
+                calls['n'] += 1
+                return spsolve(M_, b_) + 1.0
+
+            def problem():
+                phi = pf.CellVariable(m, vals.copy(), gen.make_bc(pf, m, g, spec))
+                return phi, [pf.transientTerm(phi, 0.2, 1.0), -pf.diffusionTerm(Df), pf.constantSourceTerm(pf.CellVariable(m, 1.0))]
+            p0, t0 = problem()
+            pf.solvePDE(p0, t0)
+            Mbc, bbc = pf.boundaryConditionsTerm(BC)
+            Mm = sp.csr_array(Mbc + pf.linearSourceTerm(pf.CellVariable(m, 1.0)) - pf.diffusionTerm(Df))
+            bm = bbc + pf.constantSourceTerm(pf.CellVariable(m, 1.0))
+            q0 = pf.solveMatrixPDE(m, Mm, bm)
+            p1, t1 = problem()
+            if rng.random() < 0.5:
+                pf.solvePDE(p1, t1, externalsolver=marked)
+            else:
+                pf.solveMatrixPDE(m, Mm, bm, externalsolver=marked)
+            used = calls['n']
+            p2, t2 = problem()
+            pf.solvePDE(p2, t2)
+            q2 = pf.solveMatrixPDE(m, Mm, bm)
+            if used != 1:
+                bad.append(('external-solver-calls', 'the external solver was invoked %d times by the call that received it' % used))
+            if calls['n'] != used:
+                bad.append(('external-solver-leaks', 'an external solver passed to one solve was invoked %d more time(s) by later calls that did not receive it' % (calls['n'] - used)))
+            if not (np.array_equal(np.asarray(p0._value), np.asarray(p2._value), equal_nan=True) and np.array_equal(np.asarray(q0._value), np.asarray(q2._value), equal_nan=True)):
+                bad.append(('solve-depends-on-history', 'default solves before and after a solve with an external solver differ (equal inputs)'))
+            cov['solver_leak_probes'] = 1
         else:
             raise KeyError(kind)
     cov['cls:' + cls] = 1
@@ -293,6 +369,9 @@ def plan(tier, seed):
             for r2 in range(3):
                 cases.append({'cls': cls, 'kind': 'reuse', 'seed': [seed, 15, ci, i]})
                 i += 1
+            for r2 in range(2):
+                cases.append({'cls': cls, 'kind': 'solver-leak', 'seed': [seed, 15, ci, i]})
+                i += 1
         step = 19 if NDIM[cls] == 3 else 38
         for j in range(0, len(cases), step):
             chunks.append(cases[j:j + step])
@@ -304,7 +383,9 @@ def floors(agg, tier):
     for fn in FUNCS:
         if agg['cov'].get('purity_calls:' + fn, 0) < 9:
             out.append('purity_calls:%s < 9' % fn)
-    for k in ('input_state:clean', 'input_state:value', 'input_state:bc', 'input_alias_probes'):
+    if agg['cov'].get('solver_leak_probes', 0) < 9:
+        out.append('solver_leak_probes < 9')
+    for k in ('input_state:clean', 'input_state:value', 'input_state:bc', 'input_alias_probes', 'history_independence_calls'):
         if agg['cov'].get(k, 0) < 100:
             out.append('%s < 100' % k)
     if agg['cov'].get('reuse_loops', 0) < 9:
